@@ -377,7 +377,7 @@ func runC20(r *Run) {
 		}
 		other := startFakeKDC(kdcBehaviour{kind: "reply", body: []byte("reply-from-the-other-realm")}, kdcBehaviour{kind: "refuse"})
 		conf := filepath.Join(dir, fmt.Sprintf("k%d.conf", i))
-		writeKrb5Conf(conf, map[string][]*fakeKDC{"REALM.A": ks, "REALM.B": {other}}, "REALM.A")
+		writeKrb5Conf(conf, map[string][]*fakeKDC{"REALM.A": ks, "corp.Test": {other}}, "REALM.A")
 		proxy := kdcproxy.InitKdcProxy(conf)
 		os.Remove(conf)
 		size := []int{0, 1, 3, 4, 5, 100, 1400, 70000, 131000}[rng.Intn(9)]
@@ -393,7 +393,7 @@ func runC20(r *Run) {
 			binary.BigEndian.PutUint32(data, uint32(len(krb)))
 			copy(data[4:], krb)
 		}
-		realm := []string{"", "REALM.A", "REALM.B", "UNKNOWN.REALM"}[rng.Intn(4)]
+		realm := []string{"", "REALM.A", "corp.Test", "UNKNOWN.REALM"}[rng.Intn(4)]
 		if rng.Intn(2) == 0 {
 			realm = ""
 		}
@@ -406,7 +406,7 @@ func runC20(r *Run) {
 		time.Sleep(2 * time.Millisecond)
 		// expectations
 		target := ks
-		if realm == "REALM.B" {
+		if realm == "corp.Test" {
 			target = []*fakeKDC{other}
 		}
 		if realm == "UNKNOWN.REALM" {
@@ -448,11 +448,11 @@ func runC20(r *Run) {
 			}
 			// nothing may be sent to a KDC of another realm
 			stray := func(k *fakeKDC) bool { k.mu.Lock(); defer k.mu.Unlock(); return len(k.tcpGot)+len(k.udpGot) > 0 }
-			if realm != "REALM.B" && stray(other) {
+			if realm != "corp.Test" && stray(other) {
 				r.Violation("c20-wrong-realm", "the message was sent to a KDC of another realm than the one requested", rep)
 				return
 			}
-			if realm == "REALM.B" || realm == "UNKNOWN.REALM" {
+			if realm == "corp.Test" || realm == "UNKNOWN.REALM" {
 				for _, k := range ks {
 					if stray(k) {
 						r.Violation("c20-wrong-realm", "the message was sent to a KDC of another realm than the one requested", rep)
